@@ -365,6 +365,78 @@ def _normalised(n, parents):
     return False
 
 
+# the fourth spelling-carrying field: the grammar stores the keyword `self` in its source spelling where an
+# instance name is expected (`instance_name : variable_name | SELF`): relate / unrelate (from_, to_, using_) and delete
+NAME_FIELDS = ('from_variable_name', 'to_variable_name', 'using_variable_name')
+NAME_FIELD_HANDLERS = {'variable_name': ('accept_DeleteNode',)}
+
+
+def _self_normaliser(tree, fname):
+    """does the file resolve instance names through a find_symbol that maps every spelling of `self` to the instance?
+    prebuild.py: ActionPrebuilder.find_symbol starts with  if name.lower() == 'self': name = 'self'
+    interpret.py: InstanceSymbolTable.find_symbol has      if name.lower() == 'self': return self.instance
+                  and the walkers of instance-based actions install an InstanceSymbolTable"""
+    def has_self_test(fn, want_body):
+        for st in fn.body:
+            if isinstance(st, ast.If) and ast.unparse(st.test) == "name.lower() == 'self'" and not st.orelse \
+                    and len(st.body) == 1 and ast.unparse(st.body[0]) == want_body:
+                return True
+            if isinstance(st, (ast.Assign, ast.Return)) and 'find_symbol' in ast.unparse(st):
+                return False            # the table is consulted before the spelling is normalised
+        return False
+    classes = {c.name: c for c in tree.body if isinstance(c, ast.ClassDef)}
+
+    def method(cls, name):
+        c = classes.get(cls)
+        if c is None:
+            return None
+        for f in c.body:
+            if isinstance(f, ast.FunctionDef) and f.name == name:
+                return f
+        return None
+    if fname == 'prebuild.py':
+        f = method('ActionPrebuilder', 'find_symbol')
+        return f is not None and has_self_test(f, "name = 'self'")
+    f = method('InstanceSymbolTable', 'find_symbol')
+    if f is None or not has_self_test(f, 'return self.instance'):
+        return False
+    for w in ('OperationWalker', 'DerivedAttributeWalker'):
+        init = method(w, '__init__')
+        if init is None or not any(isinstance(st, ast.Assign) and ast.unparse(st.targets[0]) == 'self.symtab'
+                                   and ast.unparse(st.value).startswith('InstanceSymbolTable(') for st in init.body):
+            return False
+    return True
+
+
+def _name_consumers(tree, fname):
+    """(file, handler, field, normalised) for every handler reading an instance-name field: normalised when every
+    read is an argument of a `find_symbol` call and the file's find_symbol normalises the spelling of `self`"""
+    file_ok = _self_normaliser(tree, fname)
+    out = []
+    for cls in [n for n in tree.body if isinstance(n, ast.ClassDef)]:
+        for fn in [n for n in cls.body if isinstance(n, ast.FunctionDef)]:
+            if 'node' not in [a.arg for a in fn.args.args]:
+                continue
+            parents = {}
+            for p_ in ast.walk(fn):
+                for c in ast.iter_child_nodes(p_):
+                    parents[c] = p_
+            uses = {}
+            for n in ast.walk(fn):
+                if not (isinstance(n, ast.Attribute) and isinstance(n.value, ast.Name) and n.value.id == 'node'):
+                    continue
+                if n.attr in NAME_FIELDS or (n.attr in NAME_FIELD_HANDLERS and fn.name in NAME_FIELD_HANDLERS[n.attr]):
+                    par = parents.get(n)
+                    if isinstance(par, ast.keyword):
+                        par = parents.get(par)
+                    ok = isinstance(par, ast.Call) and isinstance(par.func, ast.Attribute) \
+                        and par.func.attr == 'find_symbol' and n is not par.func
+                    uses.setdefault(n.attr, []).append(ok and file_ok)
+            for field in sorted(uses):
+                out.append((fname, '%s.%s' % (cls.name, fn.name), field, all(uses[field])))
+    return out
+
+
 REQUIRED = [
     ('interpret.py', 'ActionWalker.accept_BinaryOperationNode', 'operator'),
     ('interpret.py', 'ActionWalker.accept_UnaryOperationNode', 'operator'),
@@ -374,6 +446,11 @@ REQUIRED = [
     ('prebuild.py', 'ActionPrebuilder.accept_BooleanNode', 'value'),
     ('prebuild.py', 'ActionPrebuilder.accept_SelectFromNode', 'cardinality'),
     ('prebuild.py', 'ActionPrebuilder.accept_SelectFromWhereNode', 'cardinality'),
+    ('prebuild.py', 'ActionPrebuilder.accept_RelateNode', 'from_variable_name'),
+    ('prebuild.py', 'ActionPrebuilder.accept_UnrelateNode', 'to_variable_name'),
+    ('prebuild.py', 'ActionPrebuilder.accept_DeleteNode', 'variable_name'),
+    ('interpret.py', 'ActionWalker.accept_RelateNode', 'from_variable_name'),
+    ('interpret.py', 'ActionWalker.accept_DeleteNode', 'variable_name'),
 ]
 
 
@@ -527,6 +604,7 @@ def generate(repo_dir):
             names = set((a, b, c) for a, b, c, _ in sel)
             got = [g for g in got if (g[0], g[1], g[2]) not in names] + sel
         consumers += got
+        consumers += _name_consumers(t2, fname)
     consumers.sort()
     have = set((a, b, c) for a, b, c, _ in consumers)
     for req in REQUIRED:
